@@ -44,16 +44,18 @@ let handle (toks : string list) : string =
       let l = geo_search (c_spatial !st) (rect64_of_bits (z_of_string a) (z_of_string b) (z_of_string c) (z_of_string d)) in
       (match List.sort compare (List.map (fun o -> hex_of_bytes o.o_id) l) with
        | [] -> "-" | s -> String.concat "," s)
-  | "scan_sel" :: d :: limit :: gs ->
-      (* Model/CollSel on the current collection: SCAN MATCH gs.. [DESC] LIMIT limit
-         -> <COUNT reply> <n> {id}   (ids in reply order) *)
-      let globs = List.map bytes_of_hex gs and lim = n_of_int (int_of_string limit) in
-      let l = coll_scan_ids globs (d = "1") !st in
+  | "scan_sel" :: d :: limit :: idslimit :: gs ->
+      (* Model/CollSel on the current collection: SCAN MATCH gs.. [DESC] LIMIT idslimit IDS and
+         ... LIMIT limit COUNT  -> <COUNT reply> <n> {id}   (ids in reply order) *)
+      let globs = List.map bytes_of_hex gs and lim = n_of_int (int_of_string limit)
+      and ilim = n_of_int (int_of_string idslimit) in
+      let l = coll_scan_ids globs (d = "1") !st ilim in
       String.concat " " (string_of_int (int_of_n (coll_scan_count globs (d = "1") !st lim)) ::
         string_of_int (List.length l) :: List.map hex_of_bytes l)
-  | "search_sel" :: d :: limit :: gs ->
-      let globs = List.map bytes_of_hex gs and lim = n_of_int (int_of_string limit) in
-      let l = coll_search_ids globs (d = "1") !st in
+  | "search_sel" :: d :: limit :: idslimit :: gs ->
+      let globs = List.map bytes_of_hex gs and lim = n_of_int (int_of_string limit)
+      and ilim = n_of_int (int_of_string idslimit) in
+      let l = coll_search_ids globs (d = "1") !st ilim in
       String.concat " " (string_of_int (int_of_n (coll_search_count globs (d = "1") !st lim)) ::
         string_of_int (List.length l) :: List.map hex_of_bytes l)
   | _ -> "?unknown"
